@@ -217,9 +217,26 @@ func (w *World) grammar() (*Grammar, error) {
 			continue
 		}
 		if gi := w.depthGuard(fn); gi != nil {
+			// (a guard helper that takes the construct to parse as a function value
+			// has several such callees: the entry is the head of the longest chain)
+			best := 0
 			for _, c := range w.pkgCallees(fn) {
 				if g.isNodeParser(c) && g.levelShape(w, c) != nil {
-					g.EntryLevel = c
+					n := 0
+					seen := map[*ssa.Function]bool{}
+					for f := c; f != nil && !seen[f]; {
+						seen[f] = true
+						lv := g.levelShape(w, f)
+						if lv == nil {
+							break
+						}
+						n++
+						f = lv.Operand
+					}
+					if n > best {
+						best = n
+						g.EntryLevel = c
+					}
 				}
 			}
 		}
